@@ -15,8 +15,8 @@ import (
 // ---------------------------------------------------------------------------------------------
 // C07 — sequential differential runs
 
-// runSeqOps runs the program (a string over n/r) on s and writes `<count> <result>*`.
-func runSeqOps(o *Toks, s rtp.Sequencer, ops string, pre []uint64) {
+// seqRunOps runs the program (a string over n/r) on s and writes `<count> <result>*`.
+func seqRunOps(o *Toks, s rtp.Sequencer, ops string, pre []uint64) {
 	o.Nat(len(pre) + len(ops))
 	for _, v := range pre {
 		o.U64(v)
@@ -30,8 +30,8 @@ func runSeqOps(o *Toks, s rtp.Sequencer, ops string, pre []uint64) {
 	}
 }
 
-// randOps draws a program of n calls, RollOverCount with probability rocNum/rocDen.
-func randOps(r *Rand, n, rocNum, rocDen int) string {
+// seqRandOps draws a program of n calls, RollOverCount with probability rocNum/rocDen.
+func seqRandOps(r *Rand, n, rocNum, rocDen int) string {
 	var sb strings.Builder
 	sb.Grow(n)
 	for i := 0; i < n; i++ {
@@ -44,7 +44,7 @@ func randOps(r *Rand, n, rocNum, rocDen int) string {
 	return sb.String()
 }
 
-func opsTok(ops string) string {
+func seqOpsTok(ops string) string {
 	if ops == "" {
 		return "-"
 	}
@@ -55,7 +55,7 @@ func genC07Run(x *Ctx) {
 	fixed := func(start int, mk func(c *Case) string) {
 		x.Case(func(c *Case) {
 			ops := mk(c)
-			c.I.Tok("f").Nat(start).Tok(opsTok(ops))
+			c.I.Tok("f").Nat(start).Tok(seqOpsTok(ops))
 			if !strings.Contains(ops, "n") {
 				c.Trivial()
 			}
@@ -68,12 +68,12 @@ func genC07Run(x *Ctx) {
 			default:
 				c.Tag("fixed:no-wrap")
 			}
-			runSeqOps(&c.O, rtp.NewFixedSequencer(uint16(start)), ops, nil)
+			seqRunOps(&c.O, rtp.NewFixedSequencer(uint16(start)), ops, nil)
 		})
 	}
 	// every one of the 65536 start values, a few calls each
 	for s := 0; s < 65536; s++ {
-		fixed(s, func(c *Case) string { return "r" + randOps(c.R, c.R.Range(1, 6), 1, 4) + "r" })
+		fixed(s, func(c *Case) string { return "r" + seqRandOps(c.R, c.R.Range(1, 6), 1, 4) + "r" })
 	}
 	// degenerate programs
 	fixed(0, func(c *Case) string { return "" })
@@ -102,7 +102,7 @@ func genC07Run(x *Ctx) {
 			ops := sb.String()
 			c.I.Tok("f").Nat(s).Tok(ops)
 			c.Tag("fixed:>=3wraps")
-			runSeqOps(&c.O, rtp.NewFixedSequencer(uint16(s)), ops, nil)
+			seqRunOps(&c.O, rtp.NewFixedSequencer(uint16(s)), ops, nil)
 		})
 	}
 	// medium runs from random start values, biased to start just below the wrap
@@ -112,14 +112,14 @@ func genC07Run(x *Ctx) {
 			if c.R.Chance(1, 2) {
 				s = 65535 - c.R.Intn(300)
 			}
-			ops := randOps(c.R, c.R.Size(3000, 300, 1000), 1, c.R.Pick(2, 5, 50))
-			c.I.Tok("f").Nat(s).Tok(opsTok(ops))
+			ops := seqRandOps(c.R, c.R.Size(3000, 300, 1000), 1, c.R.Pick(2, 5, 50))
+			c.I.Tok("f").Nat(s).Tok(seqOpsTok(ops))
 			if strings.Count(ops, "n")+s > 65535 {
 				c.Tag("fixed:wraps")
 			} else {
 				c.Tag("fixed:no-wrap")
 			}
-			runSeqOps(&c.O, rtp.NewFixedSequencer(uint16(s)), ops, nil)
+			seqRunOps(&c.O, rtp.NewFixedSequencer(uint16(s)), ops, nil)
 		})
 	}
 	// random sequencers: the initial value is recovered from the first value issued (r = first − 1);
@@ -130,10 +130,10 @@ func genC07Run(x *Ctx) {
 			roc0 := s.RollOverCount()
 			first := s.NextSequenceNumber()
 			r0 := int(first - 1)
-			ops := randOps(c.R, c.R.Size(400, 10, 100), 1, 4)
+			ops := seqRandOps(c.R, c.R.Size(400, 10, 100), 1, 4)
 			c.I.Tok("r").Nat(r0).Tok("rn" + ops)
 			c.Tag("random")
-			runSeqOps(&c.O, s, ops, []uint64{roc0, uint64(first)})
+			seqRunOps(&c.O, s, ops, []uint64{roc0, uint64(first)})
 		})
 	}
 }
@@ -147,17 +147,17 @@ type seqCall struct {
 	res           uint64
 }
 
-// stressSeq runs g goroutines, each making its own program of calls on one shared sequencer.
+// seqStress runs g goroutines, each making its own program of calls on one shared sequencer.
 // Every call is bracketed by two draws from one global atomic ticket counter, so
 // `a.after < b.before` implies that a returned before b was invoked.
-func stressSeq(s rtp.Sequencer, progs []string) [][]seqCall {
-	return stressSeqJitter(s, progs, nil)
+func seqStress(s rtp.Sequencer, progs []string) [][]seqCall {
+	return seqStressJitter(s, progs, nil)
 }
 
-// spin burns a little time (keeps a call "in flight" longer so that more calls overlap).
+// pktzSpin burns a little time (keeps a call "in flight" longer so that more calls overlap).
 //
 //go:noinline
-func spin(n int) int {
+func pktzSpin(n int) int {
 	x := 0
 	for i := 0; i < n; i++ {
 		x += i ^ (x >> 3)
@@ -165,9 +165,9 @@ func spin(n int) int {
 	return x
 }
 
-// stressSeqJitter: as stressSeq; jitter[g] > 0 makes goroutine g dawdle (spin or yield) between
+// seqStressJitter: as seqStress; jitter[g] > 0 makes goroutine g dawdle (pktzSpin or yield) between
 // drawing a ticket and making / after making the call, about once every jitter[g] calls.
-func stressSeqJitter(s rtp.Sequencer, progs []string, jitter []int) [][]seqCall {
+func seqStressJitter(s rtp.Sequencer, progs []string, jitter []int) [][]seqCall {
 	var ticket atomic.Uint64
 	out := make([][]seqCall, len(progs))
 	start := make(chan struct{})
@@ -194,7 +194,7 @@ func stressSeqJitter(s rtp.Sequencer, progs []string, jitter []int) [][]seqCall 
 						if k%2 == 0 {
 							runtime.Gosched()
 						} else {
-							sink += spin(200 + (k%5)*300)
+							sink += pktzSpin(200 + (k%5)*300)
 						}
 					}
 					v := s.NextSequenceNumber()
@@ -230,7 +230,7 @@ func genC07Hist(x *Ctx) {
 			progs := make([]string, g)
 			rocDen := c.R.Pick(3, 10, 100)
 			for i := range progs {
-				progs[i] = randOps(c.R, n/g+c.R.Intn(3), 1, rocDen)
+				progs[i] = seqRandOps(c.R, n/g+c.R.Intn(3), 1, rocDen)
 			}
 			c.Tag(tag)
 			var jitter []int
@@ -241,7 +241,7 @@ func genC07Hist(x *Ctx) {
 				}
 				c.Tag("jitter")
 			}
-			hist := stressSeqJitter(rtp.NewFixedSequencer(uint16(s0)), progs, jitter)
+			hist := seqStressJitter(rtp.NewFixedSequencer(uint16(s0)), progs, jitter)
 			cnt := 0
 			for _, h := range hist {
 				cnt += len(h)
@@ -282,16 +282,16 @@ func genC07Hist(x *Ctx) {
 // with calls that stay in flight while the 16-bit value goes all the way round.
 // c07.synthbad: minimal corruptions of such histories must be rejected.
 
-type synthCall struct {
+type seqSynthCall struct {
 	op            byte
 	res           uint64
 	lin, from, to int64 // linearization point and real-time interval (before ranking)
 	before, after uint64
 }
 
-func synthHistory(r *Rand, start uint16, n int, rocDen int, longCalls int) []synthCall {
+func seqSynthHistory(r *Rand, start uint16, n int, rocDen int, longCalls int) []seqSynthCall {
 	s := rtp.NewFixedSequencer(start)
-	calls := make([]synthCall, n)
+	calls := make([]seqSynthCall, n)
 	for k := range calls {
 		c := &calls[k]
 		c.lin = int64(k+1) * 16
@@ -337,7 +337,7 @@ func synthHistory(r *Rand, start uint16, n int, rocDen int, longCalls int) []syn
 		if evs[a].t != evs[b].t {
 			return evs[a].t < evs[b].t
 		}
-		return mix(uint64(evs[a].idx)*2+b2u(evs[a].after)^tie) < mix(uint64(evs[b].idx)*2+b2u(evs[b].after)^tie)
+		return mix(uint64(evs[a].idx)*2+pktzB2u(evs[a].after)^tie) < mix(uint64(evs[b].idx)*2+pktzB2u(evs[b].after)^tie)
 	})
 	for rank, e := range evs {
 		if e.after {
@@ -349,14 +349,14 @@ func synthHistory(r *Rand, start uint16, n int, rocDen int, longCalls int) []syn
 	return calls
 }
 
-func b2u(b bool) uint64 {
+func pktzB2u(b bool) uint64 {
 	if b {
 		return 1
 	}
 	return 0
 }
 
-func writeSynth(c *Case, start int, calls []synthCall) {
+func seqWriteSynth(c *Case, start int, calls []seqSynthCall) {
 	defer func() { c.I.Nat(start).Nat(0).U64(fnv(c.O.String())) }()
 	perm := make([]int, len(calls))
 	for i := range perm {
@@ -374,19 +374,19 @@ func writeSynth(c *Case, start int, calls []synthCall) {
 }
 
 func genC07Synth(x *Ctx) {
-	gen := func(c *Case) (int, []synthCall) {
+	gen := func(c *Case) (int, []seqSynthCall) {
 		start := c.R.Pick(0, 65535, 65535-c.R.Intn(3000), c.R.Intn(65536))
 		n := c.R.Pick(c.R.Range(1, 50), c.R.Range(50, 3000), c.R.Range(3000, 40000))
 		if c.R.Chance(1, 25) {
 			n = c.R.Range(66000, 140000) // values repeat; with long calls equal values overlap in time
 			c.Tag("values-repeat")
 		}
-		return start, synthHistory(c.R, uint16(start), n, c.R.Pick(3, 10, 100), c.R.Intn(6))
+		return start, seqSynthHistory(c.R, uint16(start), n, c.R.Pick(3, 10, 100), c.R.Intn(6))
 	}
 	for i, n := 0, x.N(200, 20000); i < n; i++ {
 		x.Case(func(c *Case) {
 			start, calls := gen(c)
-			writeSynth(c, start, calls)
+			seqWriteSynth(c, start, calls)
 		})
 	}
 }
@@ -396,7 +396,7 @@ func genC07SynthBad(x *Ctx) {
 		x.Case(func(c *Case) {
 			start := c.R.Pick(0, 65535, 65535-c.R.Intn(3000), c.R.Intn(65536))
 			n := c.R.Pick(c.R.Range(2, 50), c.R.Range(2, 50), c.R.Range(50, 3000), c.R.Range(3000, 30000))
-			calls := synthHistory(c.R, uint16(start), n, c.R.Pick(3, 10), c.R.Intn(4))
+			calls := seqSynthHistory(c.R, uint16(start), n, c.R.Pick(3, 10), c.R.Intn(4))
 			done := false
 			switch c.R.Intn(3) {
 			case 0: // one value issued twice / one roll-over count off by one
@@ -449,7 +449,7 @@ func genC07SynthBad(x *Ctx) {
 				calls[k].res += 70000
 				c.Tag("fallback")
 			}
-			writeSynth(c, start, calls)
+			seqWriteSynth(c, start, calls)
 		})
 	}
 }
@@ -463,7 +463,7 @@ func genC07SynthSmall(x *Ctx) {
 			r := c.R
 			n := r.Range(1, 7)
 			start := r.Pick(65535, 65534, 0, 65535-r.Intn(4))
-			calls := make([]synthCall, n)
+			calls := make([]seqSynthCall, n)
 			// tickets: a random matching of 1..2n
 			tk := make([]int, 2*n)
 			for k := range tk {
@@ -517,14 +517,14 @@ func genC07SynthSmall(x *Ctx) {
 				}
 				c.Tag("corrupted")
 			}
-			writeSynth(c, start, calls)
+			seqWriteSynth(c, start, calls)
 		})
 	}
 }
 
 func genC07Facts(x *Ctx) {
 	x.Case(func(c *Case) {
-		f := extractSeqFacts(repoDir())
+		f := extractSeqFacts(pktzRepoDir())
 		c.I.Tok("sequencer.go")
 		if f.err != "" {
 			c.Tag("extract-error:" + f.err)
@@ -538,11 +538,10 @@ func genC07Facts(x *Ctx) {
 	})
 }
 
-
 // ---------------------------------------------------------------------------------------------
 // C06 — packetizer histories
 
-type pkOp struct {
+type pktzOp struct {
 	kind    byte // P S G E
 	payload []byte
 	samples uint32
@@ -552,12 +551,12 @@ type pkOp struct {
 }
 
 // runPktzHist runs the history on a real packetizer and writes input and observation tokens.
-func runPktzHist(c *Case, codec pktzCodec, mtu int, pt int, ssrc, ts0 uint32, seq0 int, ops []pkOp) {
-	rec := &recPayloader{inner: codec.mk(c.R)}
+func runPktzHist(c *Case, codec pktzCodec, mtu int, pt int, ssrc, ts0 uint32, seq0 int, ops []pktzOp) {
+	rec := &pktzRecPayloader{inner: codec.mk(c.R)}
 	p := rtp.NewPacketizer(uint16(mtu), uint8(pt), ssrc, rec, rtp.NewFixedSequencer(uint16(seq0)), 90000)
 	setPacketizerTimestamp(p, ts0)
 	var now int64
-	if !rtp.VerifSetPacketizerClock(p, clockOf(&now)) {
+	if !rtp.VerifSetPacketizerClock(p, pktzClockOf(&now)) {
 		panic("not the package's packetizer")
 	}
 	c.I.Nat(mtu).Nat(pt).U64(uint64(ssrc)).U64(uint64(ts0)).Nat(seq0).Tok(codec.name).Nat(len(ops))
@@ -594,7 +593,7 @@ func runPktzHist(c *Case, codec pktzCodec, mtu int, pt int, ssrc, ts0 uint32, se
 			} else {
 				c.O.Some().Nat(int(rec.budget)).Bool(rec.same && rec.calls == 1)
 			}
-			obsPkts(&c.O, pkts)
+			pktzObsPkts(&c.O, pkts)
 			see(pkts)
 			switch {
 			case len(op.payload) == 0:
@@ -628,7 +627,7 @@ func runPktzHist(c *Case, codec pktzCodec, mtu int, pt int, ssrc, ts0 uint32, se
 			pkts := p.GeneratePadding(op.n)
 			c.I.Tok("G").U64(uint64(op.n))
 			c.O.Tok("G")
-			obsPkts(&c.O, pkts)
+			pktzObsPkts(&c.O, pkts)
 			see(pkts)
 			if op.n > 0 {
 				tags["G:n>0"] = true
@@ -647,7 +646,7 @@ func runPktzHist(c *Case, codec pktzCodec, mtu int, pt int, ssrc, ts0 uint32, se
 	}
 }
 
-func pickSamples(r *Rand) uint32 {
+func pktzPickSamples(r *Rand) uint32 {
 	switch r.Intn(8) {
 	case 0:
 		return 0
@@ -665,13 +664,13 @@ func genC06Hist(x *Ctx) {
 	for i := 0; i < 64; i++ {
 		i := i
 		x.Case(func(c *Case) {
-			var ops []pkOp
+			var ops []pktzOp
 			if i%2 == 1 {
-				ops = append(ops, pkOp{kind: 'E', id: 1 + i%14})
+				ops = append(ops, pktzOp{kind: 'E', id: 1 + i%14})
 			}
-			ops = append(ops, pkOp{kind: 'P', payload: c.R.Bytes(1 + i%7), samples: uint32(i), now: int64(i) * 1000000007})
+			ops = append(ops, pktzOp{kind: 'P', payload: c.R.Bytes(1 + i%7), samples: uint32(i), now: int64(i) * 1000000007})
 			if i%4 >= 2 {
-				ops = append(ops, pkOp{kind: 'S', n: 5})
+				ops = append(ops, pktzOp{kind: 'S', n: 5})
 			}
 			c.Tag("tiny")
 			runPktzHist(c, pktzCodecs[i%len(pktzCodecs)], 100, 96, 0x1234ABCD, 45678, 1234, ops)
@@ -688,13 +687,13 @@ func genC06Hist(x *Ctx) {
 							mtu, id, k, d, hdr, ci := mtu, id, k, d, hdr, ci
 							x.Case(func(c *Case) {
 								n := k*(mtu-hdr) + d
-								var ops []pkOp
+								var ops []pktzOp
 								if id != 0 {
-									ops = append(ops, pkOp{kind: 'E', id: id})
+									ops = append(ops, pktzOp{kind: 'E', id: id})
 								}
-								ops = append(ops, pkOp{kind: 'P', payload: c.R.Bytes(n), samples: pickSamples(c.R), now: clockValue(c.R)})
-								ops = append(ops, pkOp{kind: 'G', n: uint32(c.R.Intn(3))})
-								ops = append(ops, pkOp{kind: 'P', payload: c.R.Bytes(n), samples: 960, now: clockValue(c.R)})
+								ops = append(ops, pktzOp{kind: 'P', payload: c.R.Bytes(n), samples: pktzPickSamples(c.R), now: pktzClockValue(c.R)})
+								ops = append(ops, pktzOp{kind: 'G', n: uint32(c.R.Intn(3))})
+								ops = append(ops, pktzOp{kind: 'P', payload: c.R.Bytes(n), samples: 960, now: pktzClockValue(c.R)})
 								c.Tag("grid")
 								if id != 0 {
 									c.Tag("abs-on")
@@ -713,7 +712,7 @@ func genC06Hist(x *Ctx) {
 		for _, n := range []int{0, 1, 2, 5, 7, 40} {
 			seq0, n := seq0, n
 			x.Case(func(c *Case) {
-				ops := []pkOp{{kind: 'G', n: uint32(n)}, {kind: 'P', payload: c.R.Bytes(30), samples: 1, now: 0}, {kind: 'G', n: uint32(n)}}
+				ops := []pktzOp{{kind: 'G', n: uint32(n)}, {kind: 'P', payload: c.R.Bytes(30), samples: 1, now: 0}, {kind: 'G', n: uint32(n)}}
 				c.Tag("padding")
 				if n == 0 {
 					c.Tag("padding:0")
@@ -748,11 +747,11 @@ func genC06Hist(x *Ctx) {
 			seq0 := r.Pick(0, 65530, 65535, r.Intn(65536))
 			absOn := r.Bool()
 			nops := r.Range(1, 12)
-			var ops []pkOp
+			var ops []pktzOp
 			curID := 0
 			if absOn {
 				curID = r.Range(1, 14)
-				ops = append(ops, pkOp{kind: 'E', id: curID})
+				ops = append(ops, pktzOp{kind: 'E', id: curID})
 			}
 			for len(ops) < nops {
 				switch k := r.Intn(20); {
@@ -787,15 +786,15 @@ func genC06Hist(x *Ctx) {
 					default:
 						payload = codec.gen(r, r.Size(min(4*budget+10, 12000), budget, 2*budget, 1))
 					}
-					ops = append(ops, pkOp{kind: 'P', payload: payload, samples: pickSamples(r), now: clockValue(r)})
+					ops = append(ops, pktzOp{kind: 'P', payload: payload, samples: pktzPickSamples(r), now: pktzClockValue(r)})
 				case k < 14:
-					ops = append(ops, pkOp{kind: 'S', n: pickSamples(r)})
+					ops = append(ops, pktzOp{kind: 'S', n: pktzPickSamples(r)})
 				case k < 17:
-					ops = append(ops, pkOp{kind: 'G', n: uint32(r.Pick(0, 1, 1, 2, 3, 5, r.Intn(12)))})
+					ops = append(ops, pktzOp{kind: 'G', n: uint32(r.Pick(0, 1, 1, 2, 3, 5, r.Intn(12)))})
 				default:
 					if absOn || r.Chance(1, 3) {
 						curID = r.Pick(0, r.Range(1, 14), r.Range(1, 14))
-						ops = append(ops, pkOp{kind: 'E', id: curID})
+						ops = append(ops, pktzOp{kind: 'E', id: curID})
 					}
 				}
 			}
